@@ -67,6 +67,7 @@ var Ctors = []Ctor{
 	{"html-comment", func(g *Gen) Node { return HTMLComment{Text: " c " + word(g) + " "} }},
 	{"style", func(g *Gen) Node { return Style{CSS: "\n\t.a > b { color: red; }\n\t"} }},
 	{"script", func(g *Gen) Node { return Script{JS: "\n\tvar x = 1 < 2 && \"</div>\";\n\t"} }},
+	{"script-expr", func(g *Gen) Node { return Script{JS: "var x = 1;", ID: g.ID("s")} }},
 }
 
 // Container wraps a sibling list.
